@@ -143,6 +143,11 @@ MUTANTS = [
     M("c07-perm-with-replacement", "C07", (NS, "pos_batch_perm = torch.randperm(train_samples.shape[0])", "pos_batch_perm = torch.randint(train_samples.shape[0], (train_samples.shape[0],))")),
     M("c07-neg-size-pos", "C07", (NS, "            neg_batch_perm = torch.randint(\n                z_samples.shape[0],\n                size=(num_batches * neg_batch_size,),",
                                   "            neg_batch_perm = torch.randint(\n                z_samples.shape[0],\n                size=(num_batches * pos_batch_size,),")),
+    M("c07-cached-training-data", "C07", (NS, "        if isinstance(data, torch.Tensor):\n            train_samples = (", "        if getattr(self, \"_train_cache\", None) is not None and tuple(self._train_cache.shape) == tuple(np.shape(data)):\n            train_samples = self._train_cache\n        elif isinstance(data, torch.Tensor):\n            train_samples = ("),
+      (NS, "        all_params = [getattr(self, net).parameters() for net in self.networks]", "        self._train_cache = train_samples\n        all_params = [getattr(self, net).parameters() for net in self.networks]")),
+    M("c16-composite-caches-leaf-values", "C16", (OB, "    def apply(self, nn_state, samples):\n        return self.left * self.right.apply(nn_state, samples)", "    def apply(self, nn_state, samples):\n        if getattr(self, \"_cache\", None) is None or self._cache[0] != tuple(samples.shape):\n            self._cache = (tuple(samples.shape), self.right.apply(nn_state, samples))\n        return self.left * self._cache[1]")),
+    M("c08-observable-caches-denominator", "C08", (PA, "        denom = nn_state.importance_sampling_denominator(samples)\n        numer_sum = torch.zeros_like(denom)\n\n        for i in range(samples.shape[-1]):  # sum over spin sites\n            samples_ = flip_spin(i, samples.clone())  # flip the spin at site i\n\n            # compute the numerator of the importance and add it to the running sum\n            numer = nn_state.importance_sampling_numerator(samples_, samples)\n            numer_sum.add_(numer)",
+                                                   "        if getattr(self, \"_den\", None) is None or self._den[0] != tuple(samples.shape):\n            self._den = (tuple(samples.shape), nn_state.importance_sampling_denominator(samples))\n        denom = self._den[1]\n        numer_sum = torch.zeros_like(denom)\n\n        for i in range(samples.shape[-1]):  # sum over spin sites\n            samples_ = flip_spin(i, samples.clone())  # flip the spin at site i\n\n            # compute the numerator of the importance and add it to the running sum\n            numer = nn_state.importance_sampling_numerator(samples_, samples)\n            numer_sum.add_(numer)")),
     # ---- C12
     M("c12-break-before-batch-end", "C12", (NS, "                callbacks.on_batch_end(self, ep, b)\n                if self.stop_training:  # check for stop_training signal\n                    break",
                                             "                if self.stop_training:  # check for stop_training signal\n                    break\n                callbacks.on_batch_end(self, ep, b)")),
